@@ -916,14 +916,20 @@ def _impl_short(hre):
 def write_unit(u, outdir):
     os.makedirs(outdir, exist_ok=True)
     p = os.path.join(outdir, u.name + '.rs')
-    with open(p, 'w', encoding='utf-8') as f:
-        f.write(u.text)
+    _atomic_write(p, u.text)
     meta = dict(name=u.name, base=getattr(u, 'base', u.name), functions=u.functions, regions=u.regions,
                 linemap={str(k): v for k, v in u.linemap.items()},
                 dropped=u.dropped, trusted=u.trusted, sources=sorted(u.sources))
-    with open(os.path.join(outdir, u.name + '.meta.json'), 'w', encoding='utf-8') as f:
-        json.dump(meta, f, indent=1)
+    _atomic_write(os.path.join(outdir, u.name + '.meta.json'), json.dumps(meta, indent=1))
     return p
+
+
+def _atomic_write(path, text):
+    # several checks may run at once and extract the same unit: never expose a half-written file
+    tmp = '%s.%d.tmp' % (path, os.getpid())
+    with open(tmp, 'w', encoding='utf-8') as f:
+        f.write(text)
+    os.replace(tmp, path)
 
 
 if __name__ == '__main__':
